@@ -108,7 +108,14 @@ ares_bool_t ares_dns_rec_type_isvalid(ares_dns_rec_type_t type,
     default:
       break;
   }
-  return is_query ? ARES_TRUE : ARES_FALSE;
+
+  /* A question may ask for any type, known to us or not, but TYPE is a 16 bit
+   * field on the wire: a value that does not fit would silently be sent as a
+   * different type (65537 as A) */
+  if (is_query && (unsigned int)type <= 65535U) {
+    return ARES_TRUE;
+  }
+  return ARES_FALSE;
 }
 
 ares_bool_t ares_dns_rec_allow_name_comp(ares_dns_rec_type_t type)
